@@ -10,7 +10,9 @@ RULE = ("every graph on n<=3 nodes over the 9 per-pair kinds {none,->,<-,<->,->&
         "ADMGs with 1-2 edits: the three functions are called on G0 and discarded, G0 is edited in place, the judged calls run on the "
         "same object against the model of the final graph. boundary stream: the empty graph (fresh / emptied in place by remove_nodes_from after a warm-up), isolated nodes only "
         "(n<=5), a node dropped in place, each with L, S omitted and with explicit empty sets (every ADMG(n<=3) also with explicit empty "
-        "sets); argument integrity on every case (graph snapshot, the two set objects stay empty). shaped stream: 350 (4000) ancestral graphs with 6-8 nodes built around an inducing path x <-> c1 <-> .. <-> ck <-> y whose colliders "
+        "sets); argument integrity on every case (graph snapshot, the two set objects stay empty). chain stream: 400 (5000) planted all-bidirected collider chains x <-> c1 <-> .. <-> ck <-> y with k = 4..6 (n = 6..8), each collider an "
+        "ancestor of x only / y only / both (interleaved at random, directly or through an intermediate), ancestral and non-maximal by "
+        "construction, relabelled and with varied insertion order. shaped stream: 350 (4000) ancestral graphs with 6-8 nodes built around an inducing path x <-> c1 <-> .. <-> ck <-> y whose colliders "
         "reach x / y through directed paths of length 1-3, with random decorations and relabellings (most are non-maximal; the model decides). "
         "dense stream: 250 random ADMGs with 6-8 nodes and edge density 0.7-0.9; 40 graphs with identity-hashed label objects. "
         "size stream: collider dead-end shapes with 7-14 nodes (a bidirected 3/4/5-clique "
@@ -194,9 +196,59 @@ def dense_cases(tier, rng):
         yield {"kind": "obj", "g": gr.random_kinds_graph(rng, n, ["none", "->", "<-", "<->"], p_edge=0.4), "oracle": False, "_lab": "obj"}
 
 
+def chain_cases(tier, rng):
+    """planted all-bidirected collider chains x <-> c1 <-> ... <-> ck <-> y, k = 4..6 (n = 6..8, intermediates while there is room):
+    every collider is an ancestor of x only / y only / both (c1 never of x, ck never of y: the graph stays ancestral), directly or
+    through an intermediate node; x, y are sinks and not adjacent, so the graph is ancestral and NOT maximal by construction
+    (the proved model decides).  Optional decoration edges; dropped when not ancestral.  Random relabellings / insertion orders."""
+    want = 400 if tier == "quick" else 5000
+    made = 0
+    while made < want:
+        k = rng.randint(4, 6)
+        x, y = 0, 1
+        cs = list(range(2, 2 + k))
+        nxt = 2 + k
+        B = [(x, cs[0])] + [(cs[i], cs[i + 1]) for i in range(k - 1)] + [(cs[-1], y)]
+        D = []
+        for i, c in enumerate(cs):
+            opts = ["x", "y", "both"]
+            if i == 0:
+                opts = ["y"]
+            if i == k - 1:
+                opts = ["x"]
+            how = rng.choice(opts)
+            for tgt in ([x] if how == "x" else [y] if how == "y" else [x, y]):
+                if nxt < 8 and rng.random() < 0.5:
+                    D += [(c, nxt), (nxt, tgt)]
+                    nxt += 1
+                else:
+                    D.append((c, tgt))
+        n = nxt
+        V = list(range(n))
+        for _ in range(rng.randint(0, 2)):
+            a, b = rng.sample(V, 2)
+            if {a, b} == {x, y} or any({a, b} == set(e) for e in B + D) or a in (x, y):
+                continue
+            (B if rng.random() < 0.5 else D).append((a, b))
+        g = gr.G(V, D=D, B=B)
+        if not is_ancestral(g):
+            continue
+        perm = list(range(n))
+        rng.shuffle(perm)
+        h = gr.relabel(g, lambda v: perm[v])
+        if made % 2:
+            h["V"] = sorted(h["V"])
+        c = {"kind": "chain%d" % k, "g": h, "oracle": n <= 6}
+        if made % 3 == 2:
+            c["_order"] = made
+        made += 1
+        yield c
+
+
 def gen_cases(tier, rng):
     quick = tier == "quick"
     yield from boundary_cases(tier, rng)
+    yield from chain_cases(tier, rng)
     yield from shaped_cases(tier, rng)
     yield from dense_cases(tier, rng)
     yield from repeat_cases(tier, rng)
